@@ -485,8 +485,8 @@ theorem substInc_noninc (inc : Bool) : ∀ A : List Seg, (∀ s ∈ A, s.isInc =
 
 /-- the `{inconclusive:…}` loop on a well-formed template = replacing every `{inconclusive:text}` segment by
     `text` (inconclusive finding) or nothing; `fuel` > number of such segments is enough -/
-theorem inconclusiveLoop_flatten (inc : Bool) : ∀ (fuel : Nat) (segs : List Seg), SegsWF segs → incCount segs < fuel →
-    inconclusiveLoop inc fuel (flatten segs) (findFrom mInc (flatten segs) 0) = flatten (segs.map (substInc inc)) := by
+theorem inconclusiveLoop_flatten (brk inc : Bool) : ∀ (fuel : Nat) (segs : List Seg), SegsWF segs → incCount segs < fuel →
+    inconclusiveLoop brk inc fuel (flatten segs) (findFrom mInc (flatten segs) 0) = some (flatten (segs.map (substInc inc))) := by
   intro fuel
   induction fuel with
   | zero => intro segs _ h; omega
@@ -542,7 +542,7 @@ theorem inconclusiveLoop_flatten (inc : Bool) : ∀ (fuel : Nat) (segs : List Se
           have := findFrom_ge _ _ _ _ hp
           omega
       rw [hfind, ih _ hwf' hcnt', List.map_map]
-      congr 1
+      congr 2
       apply List.map_congr_left
       intro s _
       simp only [Function.comp]
@@ -979,38 +979,47 @@ theorem chainHead_lit (e : Env) (t : Str) : chainHead e (.lit t) = .lit t := rfl
 
 theorem find_zero (pat s : Str) : find pat s 0 = findFrom pat s 0 := by simp [find]
 
-/-- the first six passes (id, inconclusive, severity, cwe, message, remark) -/
-theorem head_passes (f : Finding) (verbose : Bool) (code : Str) (segs : List Seg) (hwf : SegsWF segs)
+/-- passes 1–2: `{id}`, then the `{inconclusive:…}` loop — it returns -/
+theorem head_loop (brk : Bool) (f : Finding) (verbose : Bool) (code : Str) (segs : List Seg) (hwf : SegsWF segs)
     (hv : ValuesOK f verbose) :
-    far (far (far (far (inconclusiveLoop f.inconclusive
-          ((far (flatten segs) "{id}".toList (if f.guideline = [] then f.id else f.guideline)).length + 1)
-          (far (flatten segs) "{id}".toList (if f.guideline = [] then f.id else f.guideline))
-          (find mInc (far (flatten segs) "{id}".toList (if f.guideline = [] then f.id else f.guideline)) 0))
-        "{severity}".toList (if f.classification = [] then sevStr f.severity else f.classification))
-        "{cwe}".toList (natDec f.cwe)) "{message}".toList (if verbose then f.verboseMsg else f.shortMsg))
-        "{remark}".toList f.remark
-      = flatten (segs.map (chainHead (envOf f verbose code))) ∧ SegsWF (segs.map (chainHead (envOf f verbose code))) := by
+    inconclusiveLoop brk f.inconclusive
+        ((far (flatten segs) "{id}".toList (if f.guideline = [] then f.id else f.guideline)).length + 1)
+        (far (flatten segs) "{id}".toList (if f.guideline = [] then f.id else f.guideline))
+        (find mInc (far (flatten segs) "{id}".toList (if f.guideline = [] then f.id else f.guideline)) 0)
+      = some (flatten ((segs.map (substOne "id".toList (envOf f verbose code).id)).map (substInc (envOf f verbose code).inconclusive))) ∧
+    SegsWF ((segs.map (substOne "id".toList (envOf f verbose code).id)).map (substInc (envOf f verbose code).inconclusive)) := by
   generalize he : envOf f verbose code = e
   have hid : (if f.guideline = [] then f.id else f.guideline) = e.id := by rw [← he]; rfl
-  have hsv : (if f.classification = [] then sevStr f.severity else f.classification) = e.severity := by rw [← he]; rfl
-  have hcw : natDec f.cwe = e.cwe := by rw [← he]; rfl
-  have hms : (if verbose then f.verboseMsg else f.shortMsg) = e.message := by rw [← he]; rfl
-  have hrm : f.remark = e.remark := by rw [← he]; rfl
   have hinc : f.inconclusive = e.inconclusive := by rw [← he]; rfl
-  have hsev : noOpen e.severity := by
-    rw [← hsv]
-    split
-    · exact sevStr_noOpen _
-    · exact hv.cls
-  rw [hid, hsv, hcw, hms, hrm, hinc]
+  rw [hid, hinc]
   have w1 := substOne_wf "id".toList e.id (hid ▸ hv.id) segs hwf
   have e1 : far (flatten segs) "{id}".toList e.id = flatten (segs.map (substOne "id".toList e.id)) := by
     rw [mark_id]; exact far_flatten _ _ nb_id segs hwf
   have w2 := substInc_wf e.inconclusive _ w1
   rw [e1, find_zero]
-  have e2 := inconclusiveLoop_flatten e.inconclusive ((flatten (segs.map (substOne "id".toList e.id))).length + 1) _ w1
-    (by have := incCount_le_length (segs.map (substOne "id".toList e.id)); omega)
-  rw [e2]
+  exact ⟨inconclusiveLoop_flatten brk e.inconclusive _ _ w1
+    (by have := incCount_le_length (segs.map (substOne "id".toList e.id)); omega), w2⟩
+
+/-- passes 3–6 (severity, cwe, message, remark) on the text the loop returned -/
+theorem head_passes (f : Finding) (verbose : Bool) (code : Str) (segs : List Seg)
+    (w2 : SegsWF ((segs.map (substOne "id".toList (envOf f verbose code).id)).map (substInc (envOf f verbose code).inconclusive)))
+    (hv : ValuesOK f verbose) :
+    far (far (far (far (flatten ((segs.map (substOne "id".toList (envOf f verbose code).id)).map (substInc (envOf f verbose code).inconclusive)))
+        "{severity}".toList (if f.classification = [] then sevStr f.severity else f.classification))
+        "{cwe}".toList (natDec f.cwe)) "{message}".toList (if verbose then f.verboseMsg else f.shortMsg))
+        "{remark}".toList f.remark
+      = flatten (segs.map (chainHead (envOf f verbose code))) ∧ SegsWF (segs.map (chainHead (envOf f verbose code))) := by
+  generalize he : envOf f verbose code = e at *
+  have hsv : (if f.classification = [] then sevStr f.severity else f.classification) = e.severity := by rw [← he]; rfl
+  have hcw : natDec f.cwe = e.cwe := by rw [← he]; rfl
+  have hms : (if verbose then f.verboseMsg else f.shortMsg) = e.message := by rw [← he]; rfl
+  have hrm : f.remark = e.remark := by rw [← he]; rfl
+  have hsev : noOpen e.severity := by
+    rw [← hsv]
+    split
+    · exact sevStr_noOpen _
+    · exact hv.cls
+  rw [hsv, hcw, hms, hrm]
   have w3 := substOne_wf "severity".toList e.severity hsev _ w2
   have w4 := substOne_wf "cwe".toList e.cwe (hcw ▸ (natDec_noBrace f.cwe).noOpen) _ w3
   have w5 := substOne_wf "message".toList e.message (hms ▸ hv.msg) _ w4
@@ -1020,11 +1029,14 @@ theorem head_passes (f : Finding) (verbose : Bool) (code : Str) (segs : List Seg
   simp only [List.map_map] at w6 ⊢
   exact ⟨rfl, w6⟩
 
-/-- `mainText` of a well-formed template = simultaneous substitution (`Spec.renderMain`) -/
-theorem mainText_eq_spec (src : Loc → Str) (f : Finding) (verbose : Bool) (segs : List Seg) (hwf : SegsWF segs)
-    (hv : ValuesOK f verbose) : mainText src f verbose (flatten segs) = Spec.renderMain src f verbose segs := by
+/-- `mainText` of a well-formed template returns, and returns the simultaneous substitution (`Spec.renderMain`) -/
+theorem mainText_eq_spec (brk : Bool) (src : Loc → Str) (f : Finding) (verbose : Bool) (segs : List Seg) (hwf : SegsWF segs)
+    (hv : ValuesOK f verbose) : mainText brk src f verbose (flatten segs) = some (Spec.renderMain src f verbose segs) := by
   unfold mainText Spec.renderMain
-  obtain ⟨h6, w6⟩ := head_passes f verbose [] segs hwf hv
+  obtain ⟨hloop, w2⟩ := head_loop brk f verbose [] segs hwf hv
+  obtain ⟨h6, w6⟩ := head_passes f verbose [] segs w2 hv
+  simp only []
+  rw [hloop]
   simp only []
   rw [h6]
   cases hlast : f.stack.getLast? with
@@ -1063,6 +1075,7 @@ theorem mainText_eq_spec (src : Loc → Str) (f : Finding) (verbose : Bool) (seg
     rw [ha, hb]
     subst he
     rw [flatten_map]
+    congr 1
     apply flatMap_congr'
     intro s _
     exact chainCode_flat (envOf f verbose (readCode (src last) last.column (endlOf (subst (envOf f verbose []).valueNoCode segs)))) s
@@ -1071,6 +1084,7 @@ theorem mainText_eq_spec (src : Loc → Str) (f : Finding) (verbose : Bool) (seg
     have hst : f.stack = [] := List.getLast?_eq_none_iff.mp hlast
     have hc : codeOf src f (subst (envOf f verbose []).valueNoCode segs) = [] := by unfold codeOf; rw [hlast]
     rw [hc, replaceMap_flatten _ _ w6, List.map_map, flatten_map]
+    congr 1
     apply flatMap_congr'
     intro s _
     apply chainNoStack_flat (envOf f verbose []) s
@@ -1161,13 +1175,14 @@ structure LocValuesOK (f : Finding) : Prop where
   infos : ∀ l ∈ f.stack, noOpen (if l.info = [] then f.shortMsg else l.info)
 
 /-- `toString` on well-formed templates = the documented simultaneous substitution -/
-theorem toString_eq_spec (src : Loc → Str) (f : Finding) (verbose : Bool) (segsF segsL : List Seg)
+theorem toString_eq_spec (brk : Bool) (src : Loc → Str) (f : Finding) (verbose : Bool) (segsF segsL : List Seg)
     (hF : SegsWF segsF) (hL : SegsWF segsL) (hv : ValuesOK f verbose)
     (hl : flatten segsL ≠ [] ∧ 2 ≤ f.stack.length → LocValuesOK f) :
-    toString src f verbose (flatten segsF) (flatten segsL) = Spec.render src f verbose segsF segsL := by
+    toString brk src f verbose (flatten segsF) (flatten segsL) = some (Spec.render src f verbose segsF segsL) := by
   unfold toString Spec.render
+  rw [mainText_eq_spec brk src f verbose segsF hF hv]
   simp only []
-  rw [mainText_eq_spec src f verbose segsF hF hv]
+  congr 1
   split
   · rename_i hc
     have hlv := hl hc
